@@ -17,7 +17,8 @@ package main
 //     (CBOR decoding: C11/C12): a fresh copy of the stored node, or an error if the node is of another kind.
 //   - (*Epoch).prefetchSubgraph: cache warm-up only. The epochs are in lassie mode, which skips the
 //     CAR prefetch closure of the getBlock handlers (cache warm-up only).
-//   - tooling.DecompressZstd is the identity (engine model).
+//   - tooling.DecompressZstd at its call sites in storage.go / grpc-server.go / multiepoch-getBlock.go
+//     is the identity verifC02Decompress (zstd is library code; payload identity through zstd is outside reach).
 
 import (
 	"context"
@@ -87,6 +88,8 @@ type verifC02Archive struct {
 	txs    []*verifC02Tx // transactions reachable through the sig-to-cid index
 	// sigExistsFP: the signature-exists pre-filter answers true for signatures that are not archived here
 	sigExistsFP bool
+	// failing: reading the node with this CID fails with an I/O error (C02.*FetchFail only)
+	failing *cid.Cid
 }
 
 var (
@@ -266,6 +269,9 @@ func (ser *Epoch) FindCidFromSignature(ctx context.Context, sig solana.Signature
 
 func (s *Epoch) GetNodeByCid(ctx context.Context, wantedCid cid.Cid) ([]byte, error) {
 	a := verifC02Archives[s]
+	if a.failing != nil && a.failing.Equals(wantedCid) {
+		return nil, errors.New("verif model: i/o error while reading the node")
+	}
 	for i, n := range a.nodes {
 		if n.c.Equals(wantedCid) {
 			return []byte{byte(n.kind), byte(i), byte(a.num)}, nil
@@ -340,6 +346,9 @@ func (b *verifC02SigExists) Has(sig [64]byte) (bool, error) {
 	}
 	return b.a.sigExistsFP, nil
 }
+
+// verifC02Decompress replaces tooling.DecompressZstd at the handlers' call sites.
+func verifC02Decompress(b []byte) ([]byte, error) { return b, nil }
 
 // verifC02B: branch-free 0/1 of a (possibly symbolic) condition.
 func verifC02B(c bool) uint64 { return verifIteU64(c, 1, 0) }
